@@ -78,6 +78,9 @@ def effect_label(fl, body, t):
               "WaitGroup::wait", "AsyncWaitGroup::wait", "WaitGroup::done", "AsyncWaitGroup::done", "WaitSignal::done", "Receiver::close", "Vec::push", "Vec::clear"):
         if callee_matches(c, n):
             return neutral(n.replace("AsyncWaitGroup", "WaitGroup"))
+    # `mem::take(&mut *buf)` / `mem::replace(&mut *buf, Vec::with_capacity(..))` empties a Vec like clear() does
+    if (callee_matches(c, "mem::take") or callee_matches(c, "mem::replace")) and "Vec<" in (t.get("destty") or ""):
+        return neutral("Vec::clear")
     if t.get("rlocal") or t.get("local"):
         if body.facts.by_path.get(t.get("resolved") or t.get("callee")) and not (t.get("resolved") or "").endswith("::unbind"):
             sc = strip_generics(t.get("resolved") or t.get("callee"))
@@ -116,7 +119,34 @@ def ret_leaves(body, max_depth=6):
                     if l2 not in body.local_name and not (1 <= l2 <= body.arg_count) and body.defs.get(l2):
                         walk(l2, depth + 1)
                         continue
-            out.append(norm(body.def_expr(bi, si, True)))
+                # the payload of an enum local that every definition builds as that variant around a plain local:
+                # `(r as Ready).0` with `r = Poll::Ready(move x)` on each path (a spliced await) carries x
+                if rv["k"] == "use" and rv["op"].get("k") in ("move", "copy") and depth < max_depth:
+                    pp = rv["op"]["pl"]["p"]
+                    l2 = rv["op"]["pl"]["l"]
+                    if len(pp) == 2 and isinstance(pp[0], str) and pp[0].startswith("as ") and isinstance(pp[1], str) and pp[1].startswith(".0:") \
+                            and l2 not in body.local_name and body.defs.get(l2):
+                        inner = []
+                        for b2, s2 in body.defs[l2]:
+                            blk = body.blocks[b2]
+                            st2 = blk["stmts"][s2] if s2 < len(blk["stmts"]) else None
+                            rv2 = st2["rv"] if st2 is not None and st2["k"] == "assign" else None
+                            if rv2 and rv2["k"] == "agg" and rv2.get("variant") == pp[0][3:] and len(rv2["fields"]) == 1 and rv2["fields"][0].get("k") in ("move", "copy") \
+                                    and not rv2["fields"][0]["pl"]["p"]:
+                                inner.append(rv2["fields"][0]["pl"]["l"])
+                            else:
+                                inner = None
+                                break
+                        if inner:
+                            for l3 in inner:
+                                walk(l3, depth + 1)
+                            continue
+            e_ = norm(body.def_expr(bi, si, True))
+            if e_[0] == "tmp" and isinstance(e_[1], int) and body.defs.get(e_[1]) and depth < max_depth:
+                # the value reduces to another local that several paths define (the result of a spliced await)
+                walk(e_[1], depth + 1)
+                continue
+            out.append(e_)
     walk(0, 0)
     return out
 
@@ -179,7 +209,7 @@ PAIRS = [
     # (sync spath suffix, async spath suffix) relative to flavour objects; None => same name
     ("cache", "get"), ("cache", "get_mut"), ("cache", "get_ttl"), ("cache", "try_update"), ("cache", "try_insert_in"), ("cache", "try_remove"), ("cache", "wait"),
     ("cache", "clear"), ("cache", "close"), ("cache", "max_cost"), ("cache", "update_max_cost"), ("cache", "len"),
-    ("processor", "handle_item"), ("processor", "handle_insert_event"), ("processor", "handle_clear_event"), ("processor", "handle_cleanup_event"), ("processor", "track_admission"),
+    ("processor", "handle_item"), ("processor", "handle_insert_event"), ("processor", "handle_clear_event"), ("processor", "handle_cleanup_event"),  # track_admission: always inlined into handle_item
     ("processor", "prepare_evict"), ("processor", "calculate_internal_cost"), ("processor", "new"),
     ("cleaner", "handle_item"), ("cleaner", "clean"),
     ("policy", "add"), ("policy", "push"), ("policy", "close"), ("policy", "remove"), ("policy", "update"), ("policy", "cost"), ("policy", "clear"), ("policy", "max_cost"), ("policy", "update_max_cost"),
